@@ -1,5 +1,6 @@
 import SciVerif.Model.Chan
 import SciVerif.Model.Proc
+import SciVerif.Lemmas.NetVal
 /-!
 # C04 — every input set is processed exactly once; every item reaches every consumer
 
@@ -20,6 +21,17 @@ Process level:
   delivered streams, `min` of the lengths many — one task per complete input set.
 * task bookkeeping of the main loop is C08's theorem (`accepted = forwarded ++ in flight`): every
   created task is forwarded exactly once.
+
+Network level (`Model/NetVal.lean`: the counting network of C05 with a value on every item), for every acyclic
+graph, every buffer size, every stream lengths (balanced or not) and **every** schedule:
+
+* `c04_network_tasks_follow_zip`: in every reachable state, the `k`-th task a process has created is the
+  task the zip semantics `den` prescribes — `g v` of the `k`-th tasks of its upstream processes. No input
+  set is ever paired differently, whatever the interleaving;
+* `c04_network_sent_is_prefix`: what a process has sent is a prefix of its zip-semantics stream;
+* `c04_network_result_schedule_independent`: two maximal runs of a balanced network end with the same items
+  sent by every process: `N` items each, the zip-semantics stream (Kahn determinism for scipipe networks);
+* `c04_network_complete_result`: a maximal run of a balanced network has sent exactly `den … 0 … N-1`.
 -/
 namespace SciVerif.Chan
 
@@ -290,6 +302,105 @@ example : (run 1 (init [[1, 2, 3]]) [.send 0, .recv, .send 0, .recv, .send 0, .c
 
 end SciVerif.Chan
 
+namespace SciVerif.C04
+open SciVerif.Net
+
+variable {n : Nat} {α : Type}
+
+/-- every task created in any schedule is the one the zip semantics prescribes -/
+theorem c04_network_tasks_follow_zip [Inhabited α] (vn : VNet n α) (hac : acyclic vn.net) (ls : List (Lbl n))
+    (s : VSt n α) (hr : vrun vn (vinit n α) ls = some s) (v : Fin n) (k : Nat) (hk : k < s.base.c v) :
+    (s.tasks v)[k]? = some (den vn n v k) ∧ (s.tasks v).length = s.base.c v := by
+  have hinv := vrun_inv vn ls _ _ (vinv_init vn) hr
+  exact ⟨tasks_eq_den vn hac s hinv v.val v rfl n v.isLt k hk, hinv.len v⟩
+
+/-- the list of tasks of a process is the zip-semantics stream up to the number of tasks created -/
+theorem c04_network_tasks_eq [Inhabited α] (vn : VNet n α) (hac : acyclic vn.net) (ls : List (Lbl n))
+    (s : VSt n α) (hr : vrun vn (vinit n α) ls = some s) (v : Fin n) :
+    s.tasks v = (List.range (s.base.c v)).map (den vn n v) := by
+  apply List.ext_getElem?
+  intro k
+  by_cases hk : k < s.base.c v
+  · rw [(c04_network_tasks_follow_zip vn hac ls s hr v k hk).1]
+    simp [hk]
+  · have hinv := vrun_inv vn ls _ _ (vinv_init vn) hr
+    have h1 : (s.tasks v)[k]? = none := by
+      apply List.getElem?_eq_none; rw [hinv.len v]; omega
+    rw [h1]
+    exact (List.getElem?_eq_none (by simp; omega)).symm
+
+/-- what has been sent is a prefix of the zip-semantics stream: its first `f v` items -/
+theorem c04_network_sent_is_prefix [Inhabited α] (vn : VNet n α) (hac : acyclic vn.net) (ls : List (Lbl n))
+    (s : VSt n α) (hr : vrun vn (vinit n α) ls = some s) (v : Fin n) :
+    sent s v = (List.range (s.base.f v)).map (den vn n v) := by
+  have hinv := vrun_inv vn ls _ _ (vinv_init vn) hr
+  have hfc := hinv.base.fc v
+  unfold sent
+  rw [c04_network_tasks_eq vn hac ls s hr v, ← List.map_take, List.take_range]
+  congr 2
+  omega
+
+/-- a maximal run of a balanced network: every process has returned after sending exactly the `N` items of
+its zip-semantics stream -/
+theorem c04_network_complete_result [Inhabited α] (vn : VNet n α) (N : Nat) (hbal : balanced vn.net N)
+    (hac : acyclic vn.net) (hB : 1 ≤ vn.net.B) (ls : List (Lbl n)) (s : VSt n α)
+    (hr : vrun vn (vinit n α) ls = some s) (hmax : vstuck vn s) (v : Fin n) :
+    s.base.term v = true ∧ sent s v = (List.range N).map (den vn n v) := by
+  have hb := vrun_proj vn ls _ _ hr
+  have hI := run_inv vn.net N hbal ls _ _ (inv_init vn.net N) hb
+  have ht := no_stuck vn.net N hbal hac hB s.base hI (vstuck_proj vn s hmax) v
+  have hf := (hI.tm v ht).2
+  refine ⟨ht, ?_⟩
+  rw [c04_network_sent_is_prefix vn hac ls s hr v, hf]
+
+/-- Kahn determinism: the result of a balanced workflow does not depend on the schedule -/
+theorem c04_network_result_schedule_independent [Inhabited α] (vn : VNet n α) (N : Nat) (hbal : balanced vn.net N)
+    (hac : acyclic vn.net) (hB : 1 ≤ vn.net.B) (ls1 ls2 : List (Lbl n)) (s1 s2 : VSt n α)
+    (hr1 : vrun vn (vinit n α) ls1 = some s1) (hr2 : vrun vn (vinit n α) ls2 = some s2)
+    (hm1 : vstuck vn s1) (hm2 : vstuck vn s2) (v : Fin n) : sent s1 v = sent s2 v := by
+  rw [(c04_network_complete_result vn N hbal hac hB ls1 s1 hr1 hm1 v).2,
+      (c04_network_complete_result vn N hbal hac hB ls2 s2 hr2 hm2 v).2]
+
+/-- a reachable state with an unreturned process of a balanced network can always move (the progress
+result of C05, carried over to the network with values) -/
+theorem c04_network_values_progress (vn : VNet n α) (N : Nat) (hbal : balanced vn.net N) (hac : acyclic vn.net)
+    (hB : 1 ≤ vn.net.B) (ls : List (Lbl n)) (s : VSt n α) (hr : vrun vn (vinit n α) ls = some s)
+    (v : Fin n) (hv : s.base.term v = false) : ∃ l s', vstep vn s l = some s' := by
+  have hb := vrun_proj vn ls _ _ hr
+  have hI := run_inv vn.net N hbal ls _ _ (inv_init vn.net N) hb
+  apply Classical.byContradiction
+  intro hno
+  have hst : vstuck vn s := by
+    intro l
+    cases h : vstep vn s l with
+    | none => rfl
+    | some s' => exact absurd ⟨l, s', h⟩ hno
+  have := no_stuck vn.net N hbal hac hB s.base hI (vstuck_proj vn s hst) v
+  simp [hv] at this
+
+/-- a diamond: source 0 feeds 1 and 2, process 3 joins them; an item is the flattened record of its lineage -/
+def diamond (N B : Nat) : VNet 4 (List Nat) :=
+  { net := { ins := fun v => if v.val = 0 then [] else if v.val = 3 then [⟨1, by omega⟩, ⟨2, by omega⟩] else [⟨0, by omega⟩],
+             src := fun _ => N, B := B },
+    srcv := fun v k => [v.val, k], g := fun v as => (100 + v.val) :: as.flatten }
+
+/-- non-vacuity: the diamond is acyclic and balanced, and a concrete interleaved schedule of it (the second
+branch runs ahead of the first) creates the join's first task from the first items of both branches -/
+example : acyclic (diamond 2 1).net ∧ balanced (diamond 2 1).net 2 := by
+  refine ⟨?_, ?_⟩
+  · unfold acyclic; decide
+  · intro v _; rfl
+
+example : (vrun (diamond 2 1) (vinit 4 (List Nat))
+      [.create ⟨0, by omega⟩, .forward ⟨0, by omega⟩, .create ⟨2, by omega⟩, .create ⟨0, by omega⟩, .create ⟨1, by omega⟩,
+       .forward ⟨0, by omega⟩, .forward ⟨2, by omega⟩, .create ⟨2, by omega⟩, .forward ⟨1, by omega⟩,
+       .create ⟨3, by omega⟩]).map (fun s => s.tasks ⟨3, by omega⟩) =
+    some [[103, 101, 0, 0, 102, 0, 0]] := by decide
+
+example : den (diamond 2 1) 4 ⟨3, by omega⟩ 1 = [103, 101, 0, 1, 102, 0, 1] := by decide
+
+end SciVerif.C04
+
 #print axioms SciVerif.Chan.delivered_recv
 #print axioms SciVerif.Chan.step_inv
 #print axioms SciVerif.Chan.init_inv
@@ -302,3 +413,9 @@ end SciVerif.Chan
 #print axioms SciVerif.Chan.createTasks_eq_zip_single
 #print axioms SciVerif.Chan.createTasks_length
 #print axioms SciVerif.Chan.c04_tasks_are_zipped_inputs
+#print axioms SciVerif.C04.c04_network_tasks_follow_zip
+#print axioms SciVerif.C04.c04_network_tasks_eq
+#print axioms SciVerif.C04.c04_network_sent_is_prefix
+#print axioms SciVerif.C04.c04_network_complete_result
+#print axioms SciVerif.C04.c04_network_result_schedule_independent
+#print axioms SciVerif.C04.c04_network_values_progress
